@@ -17,6 +17,9 @@ import (
 //	   'm' keyed map       (*data.ObjectValue; script literal ["k" => a] / [5 => a])
 //	   'k' keyed array     (*data.ArrayValue with named slots; what `$v = []; $v["k"] = a;`
 //	                        and json_decode(.., true) build)
+//	   'x' mixed array     (*data.ArrayValue in which every slot is either positional or named:
+//	                        Keys[i] == "" is a positional slot, whose key is its index i; what
+//	                        `$v = [a, b]; $v["k"] = c;` or `$v = []; $v["k"] = a; $v[] = b;` build)
 type T struct {
 	K    byte     `json:"k"`
 	B    bool     `json:"b,omitempty"`
@@ -69,8 +72,8 @@ func (t *T) size() int {
 	n := 1 + len(t.S)
 	for i, c := range t.C {
 		n += c.size()
-		if i < len(t.Keys) && t.Keys[i] != string(rune('a'+i)) {
-			n += 1 + len(t.Keys[i]) // a neutral key ("a", "b", ...) costs nothing
+		if i < len(t.Keys) && t.Keys[i] != string(rune('a'+i)) && !(t.K == 'x' && t.Keys[i] == "") {
+			n += 1 + len(t.Keys[i]) // a neutral key ("a", "b", ...) and a positional slot cost nothing
 		}
 	}
 	return n
@@ -107,6 +110,16 @@ func (t *T) toData() data.Value {
 			a.List = append(a.List, data.NewNamedZVal(t.Keys[i], c.toData()))
 		}
 		return a
+	case 'x':
+		a := &data.ArrayValue{}
+		for i, c := range t.C {
+			if t.Keys[i] == "" {
+				a.List = append(a.List, data.NewZVal(c.toData()))
+			} else {
+				a.List = append(a.List, data.NewNamedZVal(t.Keys[i], c.toData()))
+			}
+		}
+		return a
 	}
 	panic("bad tree kind")
 }
@@ -125,16 +138,86 @@ func phpStr(b []byte) string {
 // element assignment.
 func (t *T) script(name string) string {
 	switch t.K {
-	case 'k':
+	case 'k', 'x':
 		var sb strings.Builder
 		fmt.Fprintf(&sb, "$%s = [];\n", name)
 		for i, c := range t.C {
 			sb.WriteString(c.script(name + "_" + strconv.Itoa(i)))
-			fmt.Fprintf(&sb, "$%s[%s] = $%s_%d;\n", name, phpStr([]byte(t.Keys[i])), name, i)
+			if t.K == 'x' && t.Keys[i] == "" {
+				fmt.Fprintf(&sb, "$%s[] = $%s_%d;\n", name, name, i)
+			} else {
+				fmt.Fprintf(&sb, "$%s[%s] = $%s_%d;\n", name, phpStr([]byte(t.Keys[i])), name, i)
+			}
 		}
+		return sb.String()
+	case 'l', 'm':
+		if !t.stepwise() {
+			break
+		}
+		// a literal whose members are built step by step first
+		var sb strings.Builder
+		parts := make([]string, len(t.C))
+		for i, c := range t.C {
+			sb.WriteString(c.script(name + "_" + strconv.Itoa(i)))
+			parts[i] = fmt.Sprintf("$%s_%d", name, i)
+			if t.K == 'm' {
+				parts[i] = t.keyLiteral(i) + " => " + parts[i]
+			}
+		}
+		fmt.Fprintf(&sb, "$%s = [%s];\n", name, strings.Join(parts, ", "))
 		return sb.String()
 	}
 	return fmt.Sprintf("$%s = %s;\n", name, t.literal())
+}
+
+// stepwise: some descendant has no literal form.
+func (t *T) stepwise() bool {
+	if t.K == 'k' || t.K == 'x' {
+		return true
+	}
+	for _, c := range t.C {
+		if c.stepwise() {
+			return true
+		}
+	}
+	return false
+}
+
+func (t *T) keyLiteral(i int) string {
+	if n, err := strconv.ParseInt(t.Keys[i], 10, 64); err == nil && strconv.FormatInt(n, 10) == t.Keys[i] && n >= 0 {
+		return t.Keys[i]
+	}
+	return phpStr([]byte(t.Keys[i]))
+}
+
+// valid: the keys of a mixed array (index of a positional slot, normalised name of a named one)
+// are pairwise distinct -- an ArrayValue that carries the same key twice has no meaning as a PHP
+// value, so no codec is judged on it.
+func (t *T) keysDistinct() bool {
+	seen := map[PK]bool{}
+	for i := range t.Keys {
+		k := PK{Int: true, I: int64(i)}
+		if t.Keys[i] != "" {
+			k = normKey(t.Keys[i])
+		}
+		if seen[k] {
+			return false
+		}
+		seen[k] = true
+	}
+	return true
+}
+
+func (t *T) valid() bool {
+	if t.K == 'x' && !t.keysDistinct() {
+		return false
+	}
+	for _, c := range t.C {
+		if !c.valid() {
+			return false
+		}
+	}
+	return true
 }
 
 func (t *T) literal() string {
@@ -182,11 +265,7 @@ func (t *T) literal() string {
 	case 'm':
 		parts := make([]string, len(t.C))
 		for i, c := range t.C {
-			k := phpStr([]byte(t.Keys[i]))
-			if n, err := strconv.ParseInt(t.Keys[i], 10, 64); err == nil && strconv.FormatInt(n, 10) == t.Keys[i] && n >= 0 {
-				k = t.Keys[i]
-			}
-			parts[i] = k + " => " + c.literal()
+			parts[i] = t.keyLiteral(i) + " => " + c.literal()
 		}
 		return "[" + strings.Join(parts, ", ") + "]"
 	}
@@ -257,6 +336,16 @@ func (t *T) canon() *P {
 		p := &P{K: 'a'}
 		for i, c := range t.C {
 			p.set(PK{Int: true, I: int64(i)}, c.canon())
+		}
+		return p
+	case 'x':
+		p := &P{K: 'a'}
+		for i, c := range t.C {
+			if t.Keys[i] == "" {
+				p.set(PK{Int: true, I: int64(i)}, c.canon())
+			} else {
+				p.set(normKey(t.Keys[i]), c.canon())
+			}
 		}
 		return p
 	default:
@@ -415,6 +504,9 @@ func strClass(s []byte) string {
 	if !utf8.Valid(s) {
 		return "str-badutf8"
 	}
+	if m := markerIn(string(s)); m != "" {
+		return "str-marker(" + m + ")" // contains a literal of the codec sources (dict.go)
+	}
 	has := func(f func(c byte) bool) bool {
 		for _, c := range s {
 			if f(c) {
@@ -471,7 +563,7 @@ func (t *T) class() string {
 	case 's':
 		return strClass(t.S)
 	}
-	name := map[byte]string{'l': "list", 'm': "map", 'k': "keyed-array"}[t.K]
+	name := map[byte]string{'l': "list", 'm': "map", 'k': "keyed-array", 'x': "mixed-array"}[t.K]
 	if len(t.C) == 0 {
 		return name + "[]"
 	}
@@ -486,6 +578,9 @@ func (t *T) class() string {
 			}
 			if t.Keys[i] == "length" {
 				kc = "k-length" // ObjectValue answers GetProperty("length") with its size
+			}
+			if t.K == 'x' && t.Keys[i] == "" {
+				kc = "pos"
 			}
 			if kc != "k-alnum" {
 				d = kc + "=>" + d
@@ -513,7 +608,7 @@ func reduceTree(t *T, fails func(*T) bool) *T {
 		changed = false
 		for _, cand := range shrinks(cur) {
 			if cand.size() < cur.size() || simpler(cand, cur) {
-				if fails(cand) {
+				if cand.valid() && fails(cand) {
 					cur = cand
 					changed = true
 					break
@@ -549,12 +644,12 @@ func (t *T) rank() int {
 			r = 3
 		}
 	}
-	if t.K == 'l' || t.K == 'm' || t.K == 'k' {
+	if t.K == 'l' || t.K == 'm' || t.K == 'k' || t.K == 'x' {
 		r = 1
 	}
 	for i, c := range t.C {
 		r += c.rank()
-		if i < len(t.Keys) && t.Keys[i] != string(rune('a'+i)) {
+		if i < len(t.Keys) && t.Keys[i] != string(rune('a'+i)) && !(t.K == 'x' && t.Keys[i] == "") {
 			r++
 		}
 	}
@@ -583,7 +678,7 @@ func shrinks(t *T) []*T {
 	}
 	// anything -> int 0 ; string -> shorter / all-'a'
 	switch t.K {
-	case 'n', 'b', 'f', 's', 'l', 'm', 'k':
+	case 'n', 'b', 'f', 's', 'l', 'm', 'k', 'x':
 		out = append(out, tInt(0))
 	case 'i':
 		if t.I != 0 {
@@ -610,7 +705,7 @@ func shrinks(t *T) []*T {
 	// keys -> neutral
 	for i := range t.Keys {
 		want := string(rune('a' + i))
-		if t.Keys[i] != want {
+		if t.Keys[i] != want && !(t.K == 'x' && t.Keys[i] == "") {
 			dup := false
 			for _, k := range t.Keys {
 				if k == want {
